@@ -170,7 +170,10 @@ func (c *ShipConnection) CloseConnection(safe bool, code int, reason string) {
 				},
 			}
 
-			_ = c.sendShipModel(model.MsgTypeEnd, closeMessage)
+			// do not use sendShipModel, as that invokes CloseConnection if the data connection is already closed
+			if msg, err := c.shipMessageForModel(model.MsgTypeEnd, closeMessage); err == nil {
+				_ = c.dataWriter.WriteMessageToWebsocketConnection(msg)
+			}
 
 			go func() {
 				// wait a bit to let it send
@@ -399,6 +402,11 @@ func (c *ShipConnection) shipMessage(typ byte, model interface{}) ([]byte, error
 		return nil, err
 	}
 
+	return c.shipMessageForModel(typ, model)
+}
+
+// transform a SHIP model into EEBUS specific JSON without checking the data connection
+func (c *ShipConnection) shipMessageForModel(typ byte, model interface{}) ([]byte, error) {
 	if model == nil {
 		return nil, errors.New("invalid data")
 	}
